@@ -1249,6 +1249,107 @@ pub fn run_fanout(focus: &'static str, seed: u64, index: u64) -> CaseOut {
     CaseOut { findings, counts, signature: fnv_step(sig, per_thread), nontrivial, sample: case }
 }
 
+// ------------------------------------------------------------------------------------------------ C16: counters at the instant an acknowledgement resolves
+
+/// One client, no sweeper, nothing else running: each write is polled in a tight loop and the very moment its acknowledgement is Ready the
+/// counters are read. Nothing is in flight at that moment, so they must already be exact: KeysRejected for a put refused by admission,
+/// KeysAdded / WeightAdded for an accepted put, KeysDeleted / WeightRemoved for an accepted delete, and WeightAdded - WeightRemoved must be the
+/// total. Tens of thousands of acknowledgements per second reach a counter that is bumped a few instructions after `done()`.
+pub fn run_ack_stats(focus: &'static str, seed: u64, index: u64) -> CaseOut {
+    let mut rng = rt::rng_for(seed, index, 0xAC5);
+    let refusals = index % 2 == 0;
+    let rounds = 12_000u64;
+    let sutcfg = SutCfg { counters: 1_000_000, capacity: 64, max_weight: if refusals { 100 } else { 1_000_000_000 }, shards: 2, cmd_buf: *rng.pick(&[1usize, 8, 64]), pool: 1, buf: 1, tick: Duration::from_secs(3600),
+        weight_mode: WeightMode::Custom, hash_mode: HashMode::Default, start_ns: rt::START_NS };
+    let case = J::obj().with("engine", J::s("conc")).with("scenario", J::s("ack-stats")).with("focus", J::s(focus)).with("seed", J::Int(seed as i128)).with("index", J::Int(index as i128))
+        .with("phase", J::s(if refusals { "puts refused by admission" } else { "accepted puts and deletes" }));
+    let mut counts = Counts::default();
+    let mut findings = Vec::new();
+    rt::clear_abort();
+    let r = recorder();
+    r.keep.store(false, Ordering::SeqCst);
+    let _ = r.take_events();
+    sched().release_all();
+    sched().quiet();
+    let sut = Sut::new(sutcfg);
+    let marks = sut.marks;
+    let waker = rt::CountingWaker::new();
+    let tight = |issued: Issued| -> Option<CommandStatus> {
+        match issued {
+            Issued::Ack(ack, _) => { for _ in 0..200_000_000u64 { if let Poll::Ready(s) = rt::poll_once(ack.handle(), &waker) { return Some(s); } std::hint::spin_loop(); } None }
+            _ => None,
+        }
+    };
+    let stat = |t: StatsType| sut.cache.stats_summary().get(&t).unwrap_or(0);
+    let mut setup = Client::new(1);
+    let mut stuck = false;
+    if refusals {
+        for key in 1..=4u64 { let value = setup.token(key); setup.write(&sut.cache, WriteOp::PutW { key, value, weight: 25 }); }
+        setup.settle_all(&marks);
+        for _ in 0..3 { for key in 1..=4u64 { let _ = sut.cache.get(&key); } }
+        let _ = sut.quiesce();
+        let base = stat(StatsType::KeysRejected);
+        for n in 1..=rounds {
+            let key = 1000 + n;
+            match tight(issue(&sut.cache, &WriteOp::PutW { key, value: token(key, 2, n), weight: 25 })) {
+                Some(CommandStatus::Rejected(RejectionReason::EnoughSpaceIsNotAvailableAndKeyFailedToEvictOthers)) => {
+                    let seen = stat(StatsType::KeysRejected) - base;
+                    if seen != n {
+                        fail(&mut findings, &["C16"], "C16/keys-rejected-stale-when-the-acknowledgement-resolves".into(),
+                             format!("the {}th refused put has just been acknowledged (nothing else is in flight) and KeysRejected says {}", n, seen), case.clone());
+                        break;
+                    }
+                }
+                Some(other) => { counts.inc("unexpected_outcomes_in_the_refusal_loop"); let _ = other; break; }
+                None => { stuck = true; break; }
+            }
+            counts.inc("counters_read_the_moment_an_acknowledgement_resolved");
+        }
+    } else {
+        let (mut added, mut deleted, mut w_added, mut w_removed) = (0u64, 0u64, 0u64, 0u64);
+        for n in 1..=rounds {
+            let key = 1 + n % 7;
+            let weight = 10 + (n % 13) as i64;
+            match tight(issue(&sut.cache, &WriteOp::PutW { key, value: token(key, 2, n), weight })) {
+                Some(CommandStatus::Accepted) => {
+                    added += 1; w_added += weight as u64;
+                    let (a, wa, wr, total) = (stat(StatsType::KeysAdded), stat(StatsType::WeightAdded), stat(StatsType::WeightRemoved), sut.cache.total_weight_used());
+                    if a != added || wa != w_added || (wa as i64 - wr as i64) != total {
+                        fail(&mut findings, &["C16"], "C16/counters-stale-when-the-acknowledgement-of-a-put-resolves".into(),
+                             format!("put #{} accepted: KeysAdded {} (expected {}), WeightAdded {} (expected {}), WeightRemoved {}, total {}", n, a, added, wa, w_added, wr, total), case.clone());
+                        break;
+                    }
+                }
+                Some(CommandStatus::Rejected(RejectionReason::KeyAlreadyExists)) => {}
+                Some(_) => { counts.inc("unexpected_outcomes_in_the_accept_loop"); break; }
+                None => { stuck = true; break; }
+            }
+            if n % 2 == 0 {
+                let charged = sut.snapshot().stored.iter().find(|e| e.0 == key).and_then(|e| sut.cache.verif_charged_weight(e.1)).unwrap_or(0);
+                match tight(issue(&sut.cache, &WriteOp::Delete { key })) {
+                    Some(CommandStatus::Accepted) => {
+                        deleted += 1; w_removed += charged as u64;
+                        let (d, wa, wr, total) = (stat(StatsType::KeysDeleted), stat(StatsType::WeightAdded), stat(StatsType::WeightRemoved), sut.cache.total_weight_used());
+                        if d != deleted || wr != w_removed || (wa as i64 - wr as i64) != total {
+                            fail(&mut findings, &["C16"], "C16/counters-stale-when-the-acknowledgement-of-a-delete-resolves".into(),
+                                 format!("delete #{} accepted: KeysDeleted {} (expected {}), WeightRemoved {} (expected {}), WeightAdded {}, total {}", deleted, d, deleted, wr, w_removed, wa, total), case.clone());
+                            break;
+                        }
+                    }
+                    Some(_) => {}
+                    None => { stuck = true; break; }
+                }
+            }
+            counts.inc("counters_read_the_moment_an_acknowledgement_resolved");
+        }
+    }
+    if stuck { findings.push(Finding { props: vec!["C16"], signature: "inconclusive/ack-stats".into(), detail: "an acknowledgement did not resolve in the tight loop".into(), witness: J::Null, inconclusive: true }); }
+    let nontrivial = counts.get("counters_read_the_moment_an_acknowledgement_resolved") > 1000;
+    if let Err(waited) = sut.finish_or_leak() { if findings.is_empty() { findings.push(Finding { props: vec!["C16"], signature: "inconclusive/finish".into(), detail: waited_name(&waited), witness: J::Null, inconclusive: true }); } }
+    counts.inc("cases");
+    CaseOut { findings, counts, signature: fnv_step(0xAC5, index % 6), nontrivial, sample: case }
+}
+
 // ------------------------------------------------------------------------------------------------ slow sweeper ticks (whole seconds of real time)
 
 /// The sweeper ticks every 2 or 3 s of REAL time (the default is 5 s), so anything it derives from the length of its tick becomes visible,
